@@ -15,6 +15,7 @@ Tie (see agents_out/C02.md):
 import json
 import random
 import re
+from pathlib import Path
 from fractions import Fraction as F
 
 import sympy
@@ -25,7 +26,7 @@ from harness.lib.core import VERIF, source_sha
 from harness.props import c02_nm as nm
 
 LEVEL = 'proof'
-IMPORTS = 'Base.PyData Base.Expr Base.Interp Base.Stmts C02.Model C02.CondPrint C02.Spec C02.Remap C02.IndexDiff C02.Read C02.Check'
+IMPORTS = 'Base.PyData Base.Expr Base.Interp Base.Stmts C02.Model C02.CondPrint C02.Spec C02.Remap C02.IndexDiff C02.Read C02.KRename C02.Check'
 
 TAGS = {
     1: 'lcs.diff differs from the model',
@@ -33,6 +34,8 @@ TAGS = {
     4: 'printed condition differs from the model printed_cond',
     5: 'new_compartmental_map differs from the model', 6: 'create_compartment_remap differs from the model',
     7: '_index_statements_diff differs from the model',
+    8: 'the ADVAN5/7 renaming loop of pk_param_conversion differs from the model',
+    20: 'a K{i}{j} entry does not move the rate constant with its compartments',
     16: 'the regrouped diff does not spell the new / old statements',
     19: '_index_statements_diff raised although the index covers the old statements',
     15: 'remap does not send the old number of a surviving compartment to its new number',
@@ -64,8 +67,8 @@ TAGS = {
     41: 'parameters / random variables of the re-read model differ',
     42: 'generated code is not readable abbreviated code',
 }
-CORR = {1, 2, 4, 5, 6, 7}
-ORACLE = {11, 12, 13, 14, 15, 16, 19, 17, 18, 31, 32, 33, 34, 35, 36, 37, 38, 39, 40, 41, 42, 43, 48}
+CORR = {1, 2, 4, 5, 6, 7, 8}
+ORACLE = {11, 12, 13, 14, 15, 16, 19, 20, 17, 18, 31, 32, 33, 34, 35, 36, 37, 38, 39, 40, 41, 42, 43, 48}
 KNOWN_CLASS = {49: 'C02-CMT-DOSE-REMAP', 21: 'C02-PW-OVERLAP', 22: 'C02-PW-SELFREF', 23: 'C02-PW-ZERO-ELSE'}
 # fixed in /repo (5cd6b91, 08b5390, 09fcba7, 4524793): C02-COND-NARY, C02-COND-PREC, C02-PRINT-FN2, C02-PRINT-INVFN,
 # C02-DES-SCALE-STALE have no class tag any more -- a recurrence shows as oracle tags 17 / 14 / 34,36,43 = VIOLATION
@@ -404,6 +407,109 @@ def observe_isd(spec, func=None, perturb=None):
     return f"(mkI {ct.nat(spec['last'])} {it} {sc_} {ob})", {'groups': len(spec['index']), 'raised': obs is None}
 
 
+# =================================================================== stream 7: the ADVAN5/7 renaming loop
+_KLOOP = {}
+
+
+def extract_k_loop(update_py=None):
+    """The body of `if from_advan == 'ADVAN5' or from_advan == 'ADVAN7':` of pk_param_conversion, taken from the
+    CURRENT source with ast and compiled as a function of its free variables (fail-closed: refused if absent)."""
+    import ast
+    from harness.lib import core
+    src = Path(update_py) if update_py else core.REPO / 'src/pharmpy/model/external/nonmem/update.py'
+    key = str(src)
+    if key in _KLOOP:
+        return _KLOOP[key]
+    tree = ast.parse(src.read_text())
+    fn = next((n for n in tree.body if isinstance(n, ast.FunctionDef) and n.name == 'pk_param_conversion'), None)
+    node = None
+    for st in (fn.body if fn else []):
+        if isinstance(st, ast.If) and ast.unparse(st.test) == "from_advan == 'ADVAN5' or from_advan == 'ADVAN7'":
+            node = st
+    if node is None:
+        raise SkipCase('TRANSLATOR-REFUSED: ADVAN5/7 branch of pk_param_conversion not found')
+    fdef = ast.FunctionDef(name='_k_loop', args=ast.arguments(posonlyargs=[], args=[ast.arg(arg=a) for a in
+                           ('oldmap', 'newmap', 'remap', 'cs', 'advan', 'd', 'Expr', 'product')], kwonlyargs=[], kw_defaults=[], defaults=[]),
+                           body=node.body + [ast.Return(value=ast.Name(id='d', ctx=ast.Load()))], decorator_list=[])
+    mod = ast.Module(body=[fdef], type_ignores=[])
+    ast.fix_missing_locations(mod)
+    env = {}
+    exec(compile(mod, str(src) + ':k_loop', 'exec'), env)
+    _KLOOP[key] = env['_k_loop']
+    return _KLOOP[key]
+
+
+def gen_krename(rng):
+    old = rng.sample(CNAMES[:-1], rng.choice([1, 2, 3, 4, 5]))
+    new = list(old)
+    for _ in range(rng.choice([0, 1, 1, 2])):
+        if rng.random() < 0.5 and len(new) > 1:
+            del new[rng.randrange(len(new))]
+        else:
+            cand = [c for c in CNAMES[:-1] if c not in new]
+            if cand:
+                new.insert(rng.randrange(len(new) + 1), rng.choice(cand))
+    flows = []
+    for a in new:
+        for b in new:
+            if a != b and rng.random() < 0.35:
+                flows.append([a, b])
+    return {'kind': 'krename', 'old': old, 'new': new, 'flows': flows, 'advan3': rng.random() < 0.2}
+
+
+def observe_krename(spec, loop=None, perturb=None):
+    from itertools import product
+    from pharmpy.model.external.nonmem.update import create_compartment_remap
+    loop = loop or extract_k_loop()
+    oldmap = {n: i for i, n in enumerate(spec['old'], start=1)}
+    oldmap['OUTPUT'] = len(oldmap) + 1
+    newmap = {n: i for i, n in enumerate(spec['new'], start=1)}
+    newmap['OUTPUT'] = len(newmap) + 1
+    remap = create_compartment_remap(oldmap, newmap)
+    flows = {(a, b) for a, b in spec['flows']}
+
+    class CS:
+        def __len__(self):
+            return len(spec['new'])
+
+        def find_compartment(self, name):
+            return name
+
+        def get_flow(self, a, b):
+            return 1 if (a, b) in flows else 0
+
+    class E:
+        @staticmethod
+        def symbol(name):
+            return name
+    try:
+        d = loop(dict(oldmap), dict(newmap), dict(remap), CS(), 'ADVAN3' if spec['advan3'] else 'ADVAN5', {}, E, product)
+        obs = []
+        for k, v in d.items():
+            m = re.fullmatch(r'K(\d+)T(\d+)', k)
+            if not m:
+                continue
+            i, j = int(m.group(1)), int(m.group(2))
+            plain = d.get(f'K{i}{j}')
+            m2 = re.fullmatch(r'K(\d+)T(\d+)', v)
+            val = (int(m2.group(1)), int(m2.group(2))) if m2 else None
+            if (val is None and (v != 'K' or plain != 'K')) or (val is not None and plain != f'K{val[0]}{val[1]}'):
+                val = (999, 999)          # the two spellings disagree: made visible as a mismatch
+            obs.append(((i, j), val))
+        if perturb:
+            obs = perturb(obs)
+    except (KeyError, AssertionError):
+        obs = None
+    num = {n: i for n, i in newmap.items()}
+    fl = ct.lst([ct.pair(ct.nat(num[a]), ct.nat(num[b])) for a, b in sorted(flows)])
+    ob = 'None' if obs is None else '(Some ' + ct.lst([ct.pair(ct.pair(ct.nat(i), ct.nat(j)),
+                                                         'None' if v is None else f'(Some {ct.pair(ct.nat(v[0]), ct.nat(v[1]))})')
+                                                 for (i, j), v in obs]) + ')'
+    term = (f"(mkK {ct.nat(len(oldmap))} " + ct.lst([ct.pair(ct.nat(a), ct.nat(b)) for a, b in remap.items()])
+            + f" {ct.nat(len(spec['new']))} {fl} {ct.boolean(spec['advan3'])} {ob})")
+    return term, {'entries': 0 if obs is None else len(obs), 'raised': obs is None}
+
+
 # =================================================================== classification
 def _slim(info):
     return {k: v for k, v in info.items() if k != 'code'} if isinstance(info, dict) else info
@@ -451,6 +557,7 @@ STREAMS = {
     'cond': (observe_cond, 'ccase', 'verdict_cond', 200),
     'remap': (observe_remap, 'rcase', 'verdict_remap', 300),
     'isd': (observe_isd, 'icase', 'verdict_isd', 300),
+    'krename': (observe_krename, 'kcase', 'verdict_krename', 300),
 }
 
 
@@ -573,11 +680,11 @@ def run(ctx):
     distinct = set()
     samples = []
     # one independent generator per stream, all derived from ctx.rng (VERIF_SEED) in a fixed order
-    rngs = {k: random.Random(ctx.rng.getrandbits(64)) for k in ('lcs', 'print', 'cond', 'hist', 'remap', 'isd')}
+    rngs = {k: random.Random(ctx.rng.getrandbits(64)) for k in ('lcs', 'print', 'cond', 'hist', 'remap', 'isd', 'krename')}
     ctx.stream_rngs = rngs
     plan = [('lcs', gen_lcs, 600 if quick else 12000), ('print', gen_print, 500 if quick else 8000),
             ('cond', gen_cond, 300 if quick else 4000), ('remap', gen_remap, 300 if quick else 3000),
-            ('isd', gen_isd, 400 if quick else 5000)]
+            ('isd', gen_isd, 400 if quick else 5000), ('krename', gen_krename, 300 if quick else 3000)]
     for kind, gen, n in plan:
         specs = [s for s in regspecs if spec_kind(s) == kind] + [gen(rngs[kind]) for _ in range(n)]
         kept, verdicts, infos, stats = run_stream(ctx, kind, specs, kind)
@@ -593,6 +700,10 @@ def run(ctx):
                              'guard_false(201 disjoint,202 self_free,203 zero_fresh)': hist_counts(verdicts, 200, 210),
                              'printer_exceptions': _hist([i['exc'] for i in infos if i['exc']]),
                              'inconclusive': hist_counts(verdicts, 1000, 2000)}
+        elif kind == 'krename':
+            distinct |= {json.dumps([s['old'], s['new'], s['flows']]) for s, i in zip(kept, infos) if i['entries']}
+            dist['krename'] = {'cases': len(kept), 'entries_hist': _hist([i['entries'] for i in infos]),
+                               'advan3_tail': sum(1 for s in kept if s['advan3'])}
         elif kind == 'isd':
             distinct |= {json.dumps([s['index'], s['script']]) for s in kept if len(s['index']) >= 2}
             dist['isd'] = {'cases': len(kept), 'index_not_covering_old(209)': sum(1 for v in verdicts if 209 in v),
